@@ -21,7 +21,7 @@ PROP = "C19"
 
 MUTATING_METHODS = {"sort", "fill", "resize", "put", "itemset", "partition", "setflags", "byteswap"}
 MUTATING_FUNCS = {"np.fill_diagonal", "np.copyto", "np.put", "np.place", "np.putmask", "np.add.at"}
-VIEW_FUNCS = {"np.asarray", "np.asanyarray", "np.atleast_1d", "np.atleast_2d", "np.broadcast_to", "np.ravel", "np.reshape", "np.transpose", "np.squeeze", "np.ascontiguousarray", "np.diagonal", "np.triu", "np.tril"}
+VIEW_FUNCS = {"np.asfortranarray", "np.asarray_chkfinite", "np.require", "np.atleast_3d", "np.asarray", "np.asanyarray", "np.atleast_1d", "np.atleast_2d", "np.broadcast_to", "np.ravel", "np.reshape", "np.transpose", "np.squeeze", "np.ascontiguousarray", "np.diagonal", "np.triu", "np.tril"}
 VIEW_METHODS = {"view", "reshape", "ravel", "squeeze", "transpose", "swapaxes", "diagonal"}
 VIEW_ATTRS = {"T", "real", "imag", "flat"}
 
@@ -80,8 +80,8 @@ def may_alias(e: ast.expr, f: FuncInfo, local_defs, depth=0):
     return None
 
 
-def rule_r1(rep, program: Program):
-    r = rep.rule("R1", "matrices.py: only guarded lazy slots are assigned outside constructors; no in-place mutation of anything that may alias an operand, parameter or attribute", floor=150)
+def rule_r1(rep, program: Program, prop=PROP, rule="R1"):
+    r = rep.rule(rule, "matrices.py: only guarded lazy slots are assigned outside constructors; no in-place mutation of anything that may alias an operand, parameter or attribute", floor=150)
     slots = set()
     for f in matrix_functions(program):
         if f.cls is None:
@@ -126,12 +126,12 @@ def rule_r1(rep, program: Program):
                         continue
                     slot = t.attr
                     if isinstance(n, ast.AugAssign):
-                        r.violate(PROP, f"{f.qualname}:augassign:self.{slot}", f"`{norm(n)[:50]}` updates attribute {slot} in place after construction", node=n, file=f.file)
+                        r.violate(prop, f"{f.qualname}:augassign:self.{slot}", f"`{norm(n)[:50]}` updates attribute {slot} in place after construction", node=n, file=f.file)
                         continue
                     guarded = _guarded_by_none_test(f, n, slot) or _helper_only_called_under_guard(program, f, slot)
                     slots.add(f"{f.cls.name}.{slot}")
                     if not guarded:
-                        r.violate(PROP, f"{f.qualname}:stores:self.{slot}", f"`self.{slot}` is assigned in {f.qualname} outside a `self.{slot} is None` lazy-initialisation guard: the object changes after construction (results depend on which members were used before)", node=n, file=f.file)
+                        r.violate(prop, f"{f.qualname}:stores:self.{slot}", f"`self.{slot}` is assigned in {f.qualname} outside a `self.{slot} is None` lazy-initialisation guard: the object changes after construction (results depend on which members were used before)", node=n, file=f.file)
         # ---- (b) in-place mutation
         for n in ast.walk(f.node):
             what = None
@@ -153,7 +153,7 @@ def rule_r1(rep, program: Program):
                         arg = n.args[0] if n.args else None
                         a = may_alias(arg, f, local_defs) if arg is not None else None
                         if a:
-                            r.violate(PROP, f"{f.qualname}:{kw.arg}:{a}", f"`{norm(n)[:50]}` lets LAPACK overwrite `{a}`", node=n, file=f.file)
+                            r.violate(prop, f"{f.qualname}:{kw.arg}:{a}", f"`{norm(n)[:50]}` lets LAPACK overwrite `{a}`", node=n, file=f.file)
                 if cn in MUTATING_FUNCS and n.args:
                     tgt, what = n.args[0], f"`{norm(n)[:50]}`"
                 if isinstance(n.func, ast.Attribute) and n.func.attr in MUTATING_METHODS:
@@ -164,7 +164,7 @@ def rule_r1(rep, program: Program):
             if isinstance(tgt, ast.Name) and tgt.id in (set(f.params) - {"self"}) and tgt.id not in local_defs:
                 a = tgt.id
             if a and not (f.name == "__init__" and a.startswith("self.") is False and isinstance(n, ast.Assign) and False):
-                r.violate(PROP, f"{f.qualname}:inplace:{a}:{norm(n)[:40]}", f"{what} modifies memory that may belong to `{a}` (a caller-supplied operand / parameter or an attribute of the matrix; matrix products such as an identity may hand back their operand unchanged): the operand or the matrix itself is changed by an operation", node=n, file=f.file)
+                r.violate(prop, f"{f.qualname}:inplace:{a}:{norm(n)[:40]}", f"{what} modifies memory that may belong to `{a}` (a caller-supplied operand / parameter or an attribute of the matrix; matrix products such as an identity may hand back their operand unchanged): the operand or the matrix itself is changed by an operation", node=n, file=f.file)
     rep.extra["lazy_slots"] = sorted(slots)
     return r
 
